@@ -196,6 +196,10 @@ fn weight_alphabet(nv: usize) -> Vec<(Vec<f64>, bool)> {
             (vec![f64::NAN, 1.0], false),
             (vec![f64::INFINITY, f64::NEG_INFINITY], false),
             (vec![], false),
+            // large magnitudes whose float sum is clearly not 1, and an infinite sum
+            (vec![6.0e9, -6.0e9 + 1.000002], false),
+            (vec![f64::INFINITY, 0.0], false),
+            (vec![1.0e16, -1.0e16], false),
         ]
     } else {
         vec![
@@ -210,6 +214,8 @@ fn weight_alphabet(nv: usize) -> Vec<(Vec<f64>, bool)> {
             (vec![0.5, 0.5, 0.1], false),
             (vec![f64::NAN, 0.5, 0.5], false),
             (vec![f64::INFINITY, f64::NEG_INFINITY, 1.0], false),
+            (vec![6.0e9, -6.0e9 + 1.000002, 0.0], false),
+            (vec![f64::INFINITY, 0.5, 0.5], false),
         ]
     }
 }
